@@ -139,8 +139,23 @@ def gen_cases(rng, tier):
             cases.append({"spec": spec, "expr": e, "form": form, "bound": ocpgen.rnd(rng, -1, 1), "kinds": kinds, "kind": kind,
                           "K": 40 if tier == "quick" else 80, "seed": rng.getrandbits(32)})
             continue
-        cases.append({"spec": spec, "expr": e, "form": form, "bound": ocpgen.rnd(rng, -1, 1), "kinds": kinds, "kind": kind,
-                      "K": 8 if tier == "quick" else 30, "seed": rng.getrandbits(32)})
+        extra = {}
+        if kind == "normal":
+            r2 = rng.random()
+            if r2 < 0.2 and spec["T"]["kind"] == "num":
+                # the rows must follow a new numeric horizon given after a first transcription (same method object)
+                extra["retrans"] = round(spec["T"]["val"] * rng.choice([0.4, 2.5, 3.0]), 3)
+                kinds = kinds + "+retrans"
+            elif r2 < 0.4 and any(k_ in kinds for k_ in ("der", "xder", "inert", "iminus")):
+                # a further state is declared after the constraint with its inf_der / inf_inert helper symbols
+                extra["late_state"] = True
+                spec["method"] = dict(spec["method"], cls="SS")
+                spec["method"].pop("degree", None)
+                spec["method"].pop("scheme", None)
+                spec["method"]["intg"] = "rk"
+                kinds = kinds + "+latestate"
+        cases.append(dict({"spec": spec, "expr": e, "form": form, "bound": ocpgen.rnd(rng, -1, 1), "kinds": kinds, "kind": kind,
+                           "K": 8 if tier == "quick" else 30, "seed": rng.getrandbits(32)}, **extra))
     return cases
 
 
@@ -217,6 +232,18 @@ def run_case(case):
             rhs_mx = psig + case["bound"]
         con = (e_mx <= rhs_mx) if case["form"] == "le" else (e_mx >= rhs_mx)
         b.stage.subject_to(con, grid="inf", meta=build.meta_for(77))
+        if case.get("late_state"):
+            xl = b.stage.state()
+            b.stage.set_der(xl, -0.5 * xl + b.syms[spec["states"][-1]["name"]])
+            res["counters"]["state_declared_after_constraint"] = 1
+        if case.get("retrans"):
+            C.call("transcribe(first horizon)", lambda: b.ocp._transcribed)
+            C.call("set_T(transcribed)", b.ocp.set_T, case["retrans"])
+            import copy as _copy
+            spec = _copy.deepcopy(spec)
+            spec["T"] = {"kind": "num", "val": case["retrans"]}
+            b.spec = spec
+            res["counters"]["retranscribed_with_new_horizon"] = 1
         obs = engine.Observed(spec, b)
     except C.RockitRaised as e:
         if case["kind"] != "normal":
